@@ -23,6 +23,31 @@ META = set("\\.+*?()|[]{}^$#&-~")
 PLAIN_ESC = ['"', "'", "<", ">", ",", ";", "%", "!", "=", "@", "_", "/", ":", "`", "é", "♠", "😀", "q", "h", "y", "g", "ß", "Ω"]
 MULTI = ["é", "♠", "😀", "ß", "Ω"]
 LETTERS = list("abcxyz019")
+# char::is_whitespace = what the regex crate skips (outside AND inside classes) when ignore_whitespace is on.
+# Under that flag these characters are special to the regex engine: `\c` must keep meaning c.
+RX_WS_ALL = [chr(c) for c in [9, 10, 11, 12, 13, 32, 0x85, 0xA0, 0x1680] + list(range(0x2000, 0x200B)) + [0x2028, 0x2029, 0x202F, 0x205F, 0x3000]]
+LINE_SEPS = set("\n\x0b\r\u2028\u2029")
+# ... those that can stand inside a rule line (the others end the line)
+RX_WS = [c for c in RX_WS_ALL if c not in LINE_SEPS]
+RX_WS_ASCII = [c for c in RX_WS if ord(c) < 128]                 # the regex crate accepts `\c` for these
+RX_WS_COMMON = [" ", " ", "\t", "\x0c", "\x85", "\xa0", "\u3000", "\u2003"]
+
+
+def escaped_chars(written):
+    """the characters that stand behind an (unescaped) backslash in `written`"""
+    out, i = [], 0
+    while i < len(written):
+        if written[i] == "\\" and i + 1 < len(written):
+            out.append(written[i + 1])
+            i += 2
+        else:
+            i += 1
+    return out
+
+
+def has_escaped_ws(written):
+    """does `written` contain `\\c` with c white space to the regex engine (the class of the ignore_whitespace defect)"""
+    return any(c in RX_WS_ALL for c in escaped_chars(written))
 
 
 def lit(c):
@@ -41,13 +66,39 @@ class Rule:
         return "".join(a[1] for a in self.atoms)
 
 
+def ws_atom(rng):
+    """an atom built on an escaped white-space character (or `\\#`): plain, quantified group, or inside a class.
+    `meant` spells the character as \\x{..}, which no flag changes."""
+    c = rng.choice(RX_WS_COMMON if rng.random() < 0.7 else RX_WS)
+    k = rng.random()
+    if k < 0.45:
+        return ("\\" + c, lit(c))
+    if k < 0.60:
+        o = rng.choice(LETTERS)
+        return ("[\\" + c + o + "]", "[" + lit(c) + o + "]")
+    if k < 0.70:
+        return ("[^\\" + c + "]", "[^" + lit(c) + "]")
+    if k < 0.78:
+        o = rng.choice(LETTERS)
+        return ("[" + o + "\\" + c + "\\#]", "[" + o + lit(c) + "\\#]")
+    if k < 0.86:
+        return ("(\\" + c + "|q)", "(" + lit(c) + "|q)")
+    if k < 0.93:
+        return ("\\#", "\\#")
+    return ("[\\#y]", "[\\#y]")
+
+
 def gen_atoms(rng, flags, allow_space=True):
     pe = flags.get("pe", False)
+    # escaped white space: often when ignore_whitespace is on (there it is special to the regex engine), sometimes otherwise
+    p_ws = 0.30 if flags.get("iw") else 0.05
     atoms = []
     n = rng.randint(1, 5)
     for k in range(n):
         r = rng.random()
-        if r < 0.22:
+        if rng.random() < p_ws:
+            a = ws_atom(rng)
+        elif r < 0.22:
             c = rng.choice(LETTERS)
             a = (c, c)
         elif r < 0.34:
@@ -205,7 +256,8 @@ def render(rng, states, rules, flags, header_style, comments=None, closing=None,
     exp = {
         "rules": [{"name": r.name, "pre": [ids[s] for s in r.pre],
                    "target": None if r.target is None else (ids[r.target[0]], r.target[1]),
-                   "written": r.written(), "meant": r.meant(), "has_prefix": bool(r.pre)} for r in rules],
+                   "written": r.written(), "meant": r.meant(), "has_prefix": bool(r.pre),
+                   "iw_esc": has_escaped_ws(r.written())} for r in rules],
         "states": [("INITIAL", False)] + list(states),
     }
     return text, exp
